@@ -277,7 +277,7 @@ func curHangBound() time.Duration {
 	if hangSeen.Load() {
 		return 5 * time.Second // only while shrinking an already established failure
 	}
-	return hangBound
+	return pbt.Bound(hangBound)
 }
 
 type c15Actor struct {
